@@ -284,7 +284,100 @@ fn frame_result(level: u32, n: usize) -> String {
     }
 }
 
-pub const NSPECS: usize = 54;
+/// call specs 0..N_ADT exercise derived types, per-call tables and failing codecs; the rest run the
+/// built-in generic codecs at several instantiations each (so that state hidden in generic code - a
+/// static shared by all instantiations, a per-thread memo - is met in more than one order)
+pub const N_ADT: usize = 54;
+pub const NSPECS: usize = N_ADT + 52;
+
+/// two calls out of three come from the derived-type specs
+pub fn pick_spec() -> usize {
+    if rt::below(3) < 2 {
+        rt::below(N_ADT)
+    } else {
+        N_ADT + rt::below(NSPECS - N_ADT)
+    }
+}
+
+/// `impl BinarySerializer for [T]` reached through a sized wrapper
+struct SliceW<'a, T>(&'a [T]);
+impl<T: BinarySerializer + 'static> BinarySerializer for SliceW<'_, T> {
+    fn serialize<O: BinaryOutput>(&self, context: &mut SerializationContext<O>) -> desert::Result<()> {
+        self.0.serialize(context)
+    }
+}
+
+fn zoned(tz: chrono_tz::Tz, y: i32, m: u32, d: u32, h: u32) -> String {
+    use chrono::TimeZone;
+    let v = tz.with_ymd_and_hms(y, m, d, h, 30, 0).single().expect("unambiguous local time");
+    match desert::serialize_to_byte_vec(&v).and_then(|b| desert::deserialize::<chrono::DateTime<chrono_tz::Tz>>(&b)) {
+        Ok(x) => format!("ok:{} {:?}", x.to_rfc3339(), x),
+        Err(e) => format!("err:{e:?}"),
+    }
+}
+
+fn builtin(k: usize) -> String {
+    use std::collections::{BTreeMap, BTreeSet, HashMap, HashSet, LinkedList};
+    use std::sync::Arc;
+    use std::time::Duration;
+    match k {
+        0 => enc(&[1u8, 2, 3, 4], k),
+        1 => enc(&[7u32, 8, 9], k),
+        2 => enc(&SliceW(&[5u8, 6][..]), k),
+        3 => enc(&SliceW(&[300u16, 2][..]), k),
+        4 => enc(&SliceW(&["a".to_string(), "a".to_string()][..]), k),
+        5 => enc(&[0u8; 0], k),
+        6 => round(&[9u8, 8, 7]),
+        7 => round(&[-1i64, 1]),
+        8 => round(&["x".to_string(), "y".to_string()]),
+        9 => round(&[Some(1u8), None]),
+        10 => round(&vec![1u8, 2, 3]),
+        11 => round(&vec![1u32, 2, 3]),
+        12 => round(&vec!["s".to_string(), "s".to_string(), "t".to_string()]),
+        13 => round(&vec![Some(-1i8), None]),
+        14 => round(&LinkedList::from([1u16, 2, 3])),
+        15 => round(&LinkedList::from([1u8, 2, 3])),
+        16 => round(&Some(7u8)),
+        17 => round(&Some("opt".to_string())),
+        18 => round(&None::<Vec<u8>>),
+        19 => round(&Ok::<u8, String>(3)),
+        20 => round(&Err::<String, u8>(4)),
+        21 => round(&BTreeMap::from([(1u8, "one".to_string()), (2, "two".to_string())])),
+        22 => round(&BTreeMap::from([("k".to_string(), 1u32)])),
+        23 => round(&HashMap::from([(1u8, 2u8)])),
+        24 => round(&BTreeSet::from([3i32, -3])),
+        25 => round(&HashSet::from(["only".to_string()])),
+        26 => round(&Box::new(77u32)),
+        27 => round(&Rc::new("rc".to_string())),
+        28 => round(&Arc::new(vec![1u8, 2])),
+        29 => round(&(1u8, 2u16, 3u32)),
+        30 => round(&("l".to_string(), "l".to_string())),
+        31 => round(&'\u{20AC}'),
+        32 => round(&Duration::new(5, 999_999_999)),
+        33 => round(&-0.5f64),
+        34 => round(&(i128::MIN, u128::MAX)),
+        35 => round(&bytes::Bytes::from_static(b"bytes")),
+        36 => round(&uuid::Uuid::from_u128(0x0123_4567_89ab_cdef_0123_4567_89ab_cdef)),
+        37 => round(&"-12345.678900".parse::<bigdecimal::BigDecimal>().unwrap()),
+        38 => round(&bigdecimal::num_bigint::BigInt::from(-1234567890123456789i64)),
+        39 => round(&chrono::NaiveDate::from_ymd_opt(-4, 2, 29).unwrap()),
+        40 => round(&chrono::NaiveTime::from_hms_nano_opt(23, 59, 59, 1_999_999_999).unwrap()),
+        41 => round(&chrono::DateTime::<chrono::Utc>::from_timestamp(1_700_000_000, 5).unwrap()),
+        42 => round(&chrono::DateTime::parse_from_rfc3339("2024-03-31T02:30:00+05:45").unwrap()),
+        43 => round(&(chrono::Weekday::Sun, chrono::Month::December, chrono_tz::Tz::America__New_York)),
+        // instants on both sides of a daylight-saving switch, per zone
+        44 => zoned(chrono_tz::Tz::Europe__Budapest, 2024, 1, 15, 13),
+        45 => zoned(chrono_tz::Tz::Europe__Budapest, 2024, 7, 15, 14),
+        46 => zoned(chrono_tz::Tz::America__New_York, 2023, 12, 1, 8),
+        47 => zoned(chrono_tz::Tz::America__New_York, 2023, 6, 1, 8),
+        48 => zoned(chrono_tz::Tz::Australia__Lord_Howe, 2024, 1, 10, 9),
+        49 => zoned(chrono_tz::Tz::Australia__Lord_Howe, 2024, 7, 10, 9),
+        // decoders of the generic containers on fixed bytes (unknown-length form, byte form)
+        50 => dec::<Vec<u16>>(&[1, 1, 0, 5, 1, 0, 6, 0]),
+        51 => dec::<(Vec<u8>, [u8; 2], Vec<i8>)>(&[0, 2, 1, 2, 2, 3, 4, 4, 0xff, 0x7f]),
+        _ => panic!("no built-in call spec {k}"),
+    }
+}
 
 /// performs call spec `i` and renders its result; a panic inside the library is a result too
 pub fn call(i: usize) -> String {
@@ -371,6 +464,7 @@ fn call_inner(i: usize) -> String {
             }
             b
         })),
+        _ if i < NSPECS => builtin(i - N_ADT),
         _ => panic!("no call spec {i}"),
     }
 }
@@ -383,10 +477,10 @@ pub fn contended(golden: &'static [String]) -> Vec<(usize, usize)> {
     let mut handles = Vec::new();
     // every other scenario is a first-use stampede: all threads begin with the same call, so the
     // lazily initialised metadata of its types is contended by everybody at once
-    let stampede = if rt::below(2) == 0 { Some(rt::below(NSPECS)) } else { None };
+    let stampede = if rt::below(2) == 0 { Some(pick_spec()) } else { None };
     for t in 0..nthreads {
         let ncalls = 1 + rt::below(6);
-        let mut plan: Vec<usize> = (0..ncalls).map(|_| rt::below(NSPECS)).collect();
+        let mut plan: Vec<usize> = (0..ncalls).map(|_| pick_spec()).collect();
         if let Some(s0) = stampede {
             plan.insert(0, s0);
         }
